@@ -10,7 +10,7 @@ CONSTANT Table      \* the table the search runs over (CodeTable, or a mutated o
 
 SwappedTable == [i \in 1..Len(CodeTable) |-> IF i = 12 THEN CodeTable[13] ELSE IF i = 13 THEN CodeTable[12] ELSE CodeTable[i]]
 
-Positions == {"field", "alias", "aliascase", "variable", "inputfield", "recinputfield", "oneoffield", "enumvalue"}
+Positions == {"field", "listfield", "alias", "aliascase", "variable", "inputfield", "recinputfield", "oneoffield", "enumvalue"}
 
 VARIABLES needle, lo, hi, pc, found
 vars == <<needle, lo, hi, pc, found>>
